@@ -1089,6 +1089,15 @@ class Canonicalizer:
     # ------------------------------------------------------------------ module constants
     def _module_constants(self, mod, new: ast.FunctionDef) -> None:
         local = _assigned_names(new) | {a.arg for a in new.args.args + new.args.kwonlyargs}
+        cache = self.__dict__.setdefault("_modconst_cache", {})
+        if id(mod) in cache:
+            counts, vals, dirty = cache[id(mod)]
+        else:
+            counts, vals, dirty = self._scan_module_constants(mod)
+            cache[id(mod)] = (counts, vals, dirty)
+        self._module_constants_apply(mod, new, local, counts, vals, dirty)
+
+    def _scan_module_constants(self, mod):
         counts: Dict[str, int] = {}
         vals: Dict[str, ast.AST] = {}
         for st in mod.tree.body:
@@ -1116,7 +1125,9 @@ class Canonicalizer:
             if isinstance(n, ast.Call) and isinstance(n.func, ast.Attribute) and n.func.attr in ("append", "update", "add", "pop", "clear", "setdefault", "extend", "insert") \
                     and isinstance(n.func.value, ast.Name):
                 dirty.add(n.func.value.id)
+        return counts, vals, dirty
 
+    def _module_constants_apply(self, mod, new, local, counts, vals, dirty) -> None:
         def literal(v) -> bool:
             if isinstance(v, ast.Constant):
                 return isinstance(v.value, (str, int, float, bool)) or v.value is None
